@@ -1,0 +1,101 @@
+//go:build verif
+
+package integrityblock
+
+// Contracts for govc (comment-only; compiled only with -tags verif).
+
+// be64At(d, o, v): the eight bytes d[o..o+8) are the big-endian encoding of v.
+//@ def be64At(d []byte, o int, v uint64) bool = d[o] == byte(v >> 56) && d[o+1] == byte(v >> 48) && d[o+2] == byte(v >> 40) && d[o+3] == byte(v >> 32) && d[o+4] == byte(v >> 24) && d[o+5] == byte(v >> 16) && d[o+6] == byte(v >> 8) && d[o+7] == byte(v)
+
+// beU64(a, o): the big-endian value of the eight bytes a[o..o+8).
+//@ def beU64(a bytearray, o int) uint64 = uint64(a[o]) * 72057594037927936 + uint64(a[o+1]) * 281474976710656 + uint64(a[o+2]) * 1099511627776 + uint64(a[o+3]) * 4294967296 + uint64(a[o+4]) * 16777216 + uint64(a[o+5]) * 65536 + uint64(a[o+6]) * 256 + uint64(a[o+7])
+
+// dtbsStartsWith(d, h): d begins with the length-prefixed bundle hash h.
+//@ def dtbsStartsWith(d []byte, h []byte) bool = len(d) >= 8 + len(h) && be64At(d, 0, uint64(len(h))) && (forall i int :: 0 <= i && i < len(h) ==> d[8 + i] == h[i])
+
+// The signing strategy is an arbitrary implementation (key file, HSM, ...):
+// nothing is assumed about what it returns.
+//@ iface github.com/WICG/webpackage/go/integrityblock.ISigningStrategy.Sign
+//@   params (s, data)
+//@   returns (sig, err)
+//@   assigns nothing
+
+// The attribute map is written through the sorted, duplicate-refusing map
+// encoder, one entry per attribute (assumed: the loop over the Go map builds
+// one freshly written entry per key; attribute names are valid UTF-8).
+//@ func (SignatureAttributesMap).cborBytes
+//@   props C07
+//@   trusted
+//@   requires enc != nil && enc.w != nil && !failed(enc.w)
+//@   ensures failed(enc.w) ==> result != nil
+//@   ensures accepted(enc.w) >= old(accepted(enc.w)) && accepted(enc.w) - wrapped(enc.w) == old(accepted(enc.w) - wrapped(enc.w))
+//@   assigns accepted(enc.w), failed(enc.w), content(enc.w), wrapped(enc.w)
+
+//@ func (*IntegritySignature).cborBytes
+//@   props C07
+//@   may_panic
+//@   requires enc != nil && enc.w != nil && !failed(enc.w) && typeis(enc.w, *bytes.Buffer)
+//@   ensures failed(enc.w) ==> result != nil
+//@   ensures accepted(enc.w) >= old(accepted(enc.w)) && accepted(enc.w) - wrapped(enc.w) == old(accepted(enc.w) - wrapped(enc.w))
+//@   assigns accepted(enc.w), failed(enc.w), content(enc.w), wrapped(enc.w)
+
+//@ func (*IntegrityBlock).CborBytes
+//@   props C07
+//@   may_panic
+//@   returns (bs, err)
+//@   requires ib != nil
+//@   assigns nothing
+//@   loop 0:
+//@     invariant enc != nil && enc.w != nil && !failed(enc.w) && fresh(enc) && fresh(enc.w)
+
+//@ func VerifyEd25519Signature
+//@   props C07
+//@   may_panic
+//@   returns (ok, err)
+//@   ensures ok == edVerify(bytes(publicKey), bytes(dataToBeSigned), bytes(signature))
+//@   ensures ok <==> err == nil
+//@   assigns nothing
+
+// Data to be signed: the three parts in order, each prefixed by its length as
+// a 64-bit big-endian integer.
+//@ func GenerateDataToBeSigned
+//@   props C07
+//@   may_panic
+//@   returns (d, err)
+//@   ensures[hash-part] err == nil ==> dtbsStartsWith(d, webBundleHash)
+//@   ensures[block-part] err == nil ==> len(d) >= 24 + len(webBundleHash) + len(integrityBlockBytes) && be64At(d, 8 + len(webBundleHash), uint64(len(integrityBlockBytes))) && (forall i int :: 0 <= i && i < len(integrityBlockBytes) ==> d[16 + len(webBundleHash) + i] == integrityBlockBytes[i])
+//@   ensures[attributes-part] err == nil ==> be64At(d, 16 + len(webBundleHash) + len(integrityBlockBytes), uint64(len(d) - 24 - len(webBundleHash) - len(integrityBlockBytes)))
+//@   assigns nothing
+
+// The signer: on success exactly one signature was pushed on top of the
+// stack (newest first) and it verifies under the public key that is about to
+// be recorded, over data that starts with the length-prefixed bundle hash; on
+// error nothing was added.
+//@ func (*IntegrityBlockSigner).SignAndAddNewSignature
+//@   props C07
+//@   may_panic
+//@   requires ibs.IntegrityBlock != nil && ibs.SigningStrategy != nil
+//@   ensures[error-adds-nothing] result != nil ==> ibs.IntegrityBlock.SignatureStack == old(ibs.IntegrityBlock.SignatureStack)
+//@   ensures[newest-first] result == nil ==> len(ibs.IntegrityBlock.SignatureStack) == old(len(ibs.IntegrityBlock.SignatureStack)) + 1 && ibs.IntegrityBlock.SignatureStack[0] != nil && ibs.IntegrityBlock.SignatureStack[0].SignatureAttributes == signatureAttributes && (forall i int :: 0 <= i && i < old(len(ibs.IntegrityBlock.SignatureStack)) ==> ibs.IntegrityBlock.SignatureStack[i + 1] == old(ibs.IntegrityBlock.SignatureStack[i]))
+//@   ensures[recorded-signature-verifies] result == nil ==> exists d []byte :: {bytes(d)} dtbsStartsWith(d, old(ibs.WebBundleHash)) && edVerify(bytes(ed25519publicKey), bytes(d), bytes(ibs.IntegrityBlock.SignatureStack[0].Signature))
+//@   assigns ibs.IntegrityBlock.SignatureStack
+
+// A bundle is accepted for signing only if the length stated in its last
+// eight bytes equals the file size (no integrity block yet, length field not
+// larger than the file).
+//@ func readWebBundlePayloadLength
+//@   props C07
+//@   may_panic
+//@   returns (n, err)
+//@   requires bundleFile != nil
+//@   ensures err == nil ==> send(bundleFile) >= 8 && uint64(n) == beU64(sdata(bundleFile), send(bundleFile) - 8)
+//@   assigns spos(bundleFile)
+
+//@ func ObtainIntegrityBlock
+//@   props C07
+//@   may_panic
+//@   returns (ib, off, err)
+//@   requires bundleFile != nil
+//@   ensures[only-unsigned-bundles] err == nil ==> off == 0 && ib != nil && len(ib.SignatureStack) == 0
+//@   ensures[stated-length-is-file-size] err == nil ==> send(bundleFile) >= 8 && beU64(sdata(bundleFile), send(bundleFile) - 8) == uint64(send(bundleFile))
+//@   assigns spos(bundleFile)
